@@ -63,6 +63,10 @@ type runResult struct {
 	fired    int
 }
 
+// lenientFree: the memguard runs that follow treat a release of memguard-owned pages as successful even where the
+// real munmap refuses it (see probe.Memcall.LenientFree).
+var lenientFree bool
+
 var secretData = []byte("0123456789abcdef0123456789abcdef-this-is-the-secret")
 
 // runProgram executes p on impl with memcall faults at the given call indexes (relative to the start of
@@ -92,6 +96,7 @@ func runProgramInner(impl string, p program, faults []int, randFault bool) (res 
 		fac = pmf
 	default:
 		mc.AdoptUnknown = true
+		mc.LenientFree = lenientFree
 		fac = memguard.VerifNewSecretFactory(mc)
 	}
 	for _, k := range faults {
@@ -374,7 +379,9 @@ func TestC12(t *testing.T) {
 	r.Rule("both secure-memory implementations are built on a memcall monitor that delegates to the real awnumar/memcall (real pages) through the verif-tagged constructors and keeps a region table (mapped, locked, protection, generation) and reads region content whenever it is readable at unlock/free time. Programs {New/CreateRandom, plain / nested / func / io.Reader reads, Close, second Close} x EVERY memcall call index fails without effect (and every pair, thorough) plus a failing random source; after a failed creation a second healthy secret is created and re-read after GC cycles (finalizer of the failed one). Oracle: failed primitive -> error, no region left mapped without a (faulted) release attempt, no non-zero content at unlock/free, failed access leaves the secret usable, failed Close retriable, InUseCounter balanced, no call on freed regions. Distinct+non-trivial: (implementation, program, fault plan) in which a fault fired.")
 	r.Assume("faults are 'fail without effect' (mmap/mlock/mprotect/munlock/munmap do not fail after taking effect)", "memguard allocates and locks inside the third-party library, which panics by design on failure: only its Protect and cleanup positions are injectable")
 	pairs := ev.Thorough()
-	for _, impl := range []string{"protectedmemory", "memguard"} {
+	for _, implMode := range []string{"protectedmemory", "memguard", "memguard+lenient-free"} {
+		impl := strings.TrimSuffix(implMode, "+lenient-free")
+		lenientFree = impl != implMode
 		for _, p := range programs {
 			if p.random && impl == "memguard" {
 				// CreateRandom of memguard has the same injectable positions as New
@@ -386,11 +393,11 @@ func TestC12(t *testing.T) {
 			}
 			r.Sample(map[string]any{"impl": impl, "program": p.name, "clean_memcall_trace": clean.trace})
 			run := func(fs []int, rf bool) {
-				journal(fmt.Sprintf("C12 impl=%s program=%s faults=%v rand=%v", impl, p.name, fs, rf))
+				journal(fmt.Sprintf("C12 impl=%s program=%s faults=%v rand=%v", implMode, p.name, fs, rf))
 				res := runProgram(t, impl, p, fs, rf)
 				r.Eval(1)
 				if res.fired > 0 || rf {
-					r.Distinct(fmt.Sprintf("%s|%s|%v|%v", impl, p.name, fs, rf))
+					r.Distinct(fmt.Sprintf("%s|%s|%v|%v", implMode, p.name, fs, rf))
 				}
 				for _, pr := range res.problems {
 					r.Violation(pr[0], fmt.Sprintf("%s program %s faults at memcall calls %v (rand fault=%v): %s", impl, p.name, fs, rf, pr[1]),
@@ -415,6 +422,7 @@ func TestC12(t *testing.T) {
 			}
 		}
 	}
+	lenientFree = false
 	r.Exhaustive(true)
 	r.Finish(t)
 }
